@@ -72,6 +72,7 @@ class SimState:
         self.parent_fds = set()      # parent-side pipe ends; every forked child closes them
         self.extra_close = set()     # other fds a worker must not keep (result pipe of the world process)
         self.live = []               # live _Worker objects
+        self.pool_cache = {}         # nodes -> SimPool never cleared (pathos caches pools by size; an aborted map leaves one)
         self.round_offset = 0        # pool rounds used up by prelude runs in the same process
         self.fd_margin = None        # fault: workers may open at most this many descriptors beyond what they start with
         self.stats = {
@@ -79,6 +80,7 @@ class SimState:
             "assign_choices": 0, "inversions": 0, "stalls": 0, "max_overtaken": 0, "max_tasks_one_worker": 0,
             "bytes_task": 0, "bytes_result": 0, "task_exceptions": 0, "bytes_destroyed": 0,
             "worker_output_handles": 0, "signatures": [], "unordered_maps": 0, "late_starts": 0, "fd_limited_workers": 0,
+            "stale_pool_reuses": 0,
         }
 
     def ev(self, kind, *ids):
@@ -183,8 +185,8 @@ def _worker_loop(rfd, wfd, round_no, watch_paths, fd_margin=None):
         msg = _recv(rfd)
         if msg[:1] == b"X":
             return
-        idx, payload = pickle.loads(msg[1:])
-        taps.begin(round_no, idx)
+        idx, payload, task_round = pickle.loads(msg[1:])
+        taps.begin(task_round, idx)
         pre = _watch(watch_paths)
         try:
             f, a = dill.loads(payload)
@@ -243,8 +245,8 @@ class _Worker:
         if state.fd_margin is not None:
             state.stats["fd_limited_workers"] += 1
 
-    def run(self, idx, payload):
-        _send(self.wfd, b"T" + pickle.dumps((idx, payload)))
+    def run(self, idx, payload, task_round=0):
+        _send(self.wfd, b"T" + pickle.dumps((idx, payload, task_round)))
         try:
             out = pickle.loads(_recv(self.rfd, TASK_TIMEOUT_S))
         except TimeoutError:
@@ -317,6 +319,13 @@ class SimPool:
         st.stats["pools"] += 1
         st.stats["nodes"].append(self.nodes)
         st.ev("pool", self.round, self.nodes)
+        stale = st.pool_cache.get(self.nodes)
+        if stale is not None and stale.workers:
+            # pathos hands back the cached pool: its workers were forked during the earlier (aborted) map
+            self.workers = stale.workers
+            st.stats["stale_pool_reuses"] += 1
+            st.ev("stale-pool", self.round, self.nodes, len(self.workers))
+        st.pool_cache[self.nodes] = self
 
     # -- the pathos surface ---------------------------------------------------------------------------
     def imap(self, f, *iterables, **kwds):
@@ -339,6 +348,8 @@ class SimPool:
         for w in list(self.workers.values()):
             w.stop()
         self.workers = {}
+        if self.state.pool_cache.get(self.nodes) is self:
+            del self.state.pool_cache[self.nodes]
         self.state.ev("clear", self.round)
 
     close = join = terminate = lambda self: None  # noqa: E731
@@ -413,7 +424,8 @@ class SimPool:
             st.stats["rounds_with_tasks"] += 1
         # fork every worker that will run something, now: they inherit the caller's memory as of this call
         for w in sorted({p[0] for p in plan}):
-            self.workers[w] = _Worker(st, w, self.round)
+            if w not in self.workers:
+                self.workers[w] = _Worker(st, w, self.round)
         for i, (w, s, e) in enumerate(plan):
             st.ev("assign", self.round, i, w, round(s, 6), round(e, 6))
         # interleaving signature: (nodes, task->worker map, completion permutation)
@@ -469,7 +481,7 @@ class SimPool:
         st.stats["bytes_task"] += len(payload)
         st.stats["tasks"] += 1
         st.ev("run", self.round, j, wid)
-        ok, body, tapped, pre, post, handles = self.workers[wid].run(j, payload)
+        ok, body, tapped, pre, post, handles = self.workers[wid].run(j, payload, self.round - st.round_offset)
         for a, b in zip(pre, post):
             if a > 0 and b < a:
                 st.stats["bytes_destroyed"] += a - max(b, 0)
